@@ -170,6 +170,7 @@ type loopInfo struct {
 	hdr              string // printed loop header
 	riOrdinal        int    // k of "rangeindex#k" after re-anchoring (0: not re-anchored)
 	reanchored       bool
+	autoInvDone      bool
 	stmt             ast.Node // *ast.ForStmt or *ast.RangeStmt
 }
 
